@@ -42,7 +42,6 @@ func (s *SubscriptionService) nextID() uint32 {
 // get rid of all references to a subscription and all monitored items that are pointed at this subscription.
 func (s *SubscriptionService) DeleteSubscription(id uint32) {
 	s.Mu.Lock()
-	defer s.Mu.Unlock()
 
 	sub, ok := s.Subs[id]
 	if ok {
@@ -55,8 +54,12 @@ func (s *SubscriptionService) DeleteSubscription(id uint32) {
 	}
 
 	delete(s.Subs, id)
+	s.Mu.Unlock()
 
-	// ask the monitored item service to purge out any items that use this subscription
+	// ask the monitored item service to purge out any items that use this subscription.
+	// This must happen without holding s.Mu: CreateMonitoredItems holds the monitored
+	// item service's lock while it takes s.Mu, so taking the two locks in the opposite
+	// order here deadlocks the request dispatcher.
 	s.srv.MonitoredItemService.DeleteSub(id)
 
 }
